@@ -7,31 +7,38 @@ from ..coqeval import eval_checks
 from ..util import workdir
 
 RULE = ("synthetic runs of `whatshap phase` on 1-3 chromosomes x {two trios, trio + unrelated sample (processed "
-        "before or after the trio), quartet (two trios in one family) +/- unrelated sample}, child haplotypes "
-        "inherited with recombination probability 0-0.35 per variant, 14-32 error-free reads per sample and "
-        "chromosome, 8-25% deliberately wrong VCF genotypes (reads contradict them), GL present or default GQ, "
-        "optional multi-allelic / ALT-less / duplicate-position records; options: every combination of "
-        "--output-read-list / --changed-genotype-list / --recombination-list x --distrust-genotypes (+/- "
-        "--include-homozygous) x --ped (uniform --recombrate from 1.26 to 1e6, or --genmap with one --chromosome), "
-        "optional --chromosome subsets, --no-genetic-haplotyping. A case is one run; it is non-trivial if it "
-        "requests at least one list and processes at least two (chromosome, family) instances; distinct = distinct "
-        "(scenario seed, options).")
+        "before or after the trio), quartet (two trios in one family) +/- unrelated sample}, sample order shuffled, child "
+        "haplotypes inherited with recombination probability 0-0.35 per variant, 4-32 error-free reads of 70-380 bp per "
+        "sample and chromosome (optionally with a coverage gap between the two middle variants so that a family has "
+        "several phase sets), 8-25% deliberately wrong VCF genotypes (the reads contradict them), GL present or default "
+        "GQ, optional multi-allelic / ALT-less / duplicate-position records, optionally one chromosome without any "
+        "heterozygous call; options: every combination of --output-read-list / --changed-genotype-list / "
+        "--recombination-list x --distrust-genotypes (+/- --include-homozygous) x --ped (uniform --recombrate from 1.26 "
+        "to 1e6, or --genmap with one --chromosome), optional --chromosome subsets, --no-genetic-haplotyping. "
+        "Corpus first: the F9 shape (two chromosomes, one trio, all lists, full run and --chromosome run) and a "
+        "chromosome without anything to phase. A case is one run; it is non-trivial if it requests at least one list "
+        "and processes at least two (chromosome, family) instances; distinct = distinct (scenario seed, options).")
 TRUSTED = [
     "modelled, not verified: Python dict / file-object semantics behind the writers (open(path, 'w') truncates; "
     "print appends a line), pysam as VCF parser of the input/output VCF, the trace hook (WHATSHAP_VERIF_TRACE) as "
     "source of the per-(chromosome, family) results (reads, partitioning, components, transmission vector, costs, super-reads)",
     "names (samples, chromosomes, reads, REF/ALT) are interned to integers by the harness; list files are parsed "
     "line by line (exact header string, tab/space separated integer fields)",
-    "phasing results themselves (components, super-reads, transmission vector) are inputs of this model; their "
-    "correctness is the subject of C01/C03/C05",
+    "phasing results themselves (components, super-reads, transmission vector, recombination costs) are inputs of this "
+    "model; their correctness is the subject of C01/C03/C05",
+    "'the entries of one (chromosome, family)' of the recombination list are obtained by calling the real "
+    "whatshap.cli.phase.write_recombination_list in-process on each traced instance alone",
 ]
 ASSUMPTIONS = [
     "representation invariants of the traced Python objects (checked on every trace, chk_wf): accessible positions "
     "strictly increasing, components is a dict (unique keys), every selected read belongs to a member of the family "
     "being processed, children of the trios of a family are distinct, families of one chromosome are disjoint",
-    "changes_are_diffs without --distrust-genotypes assumes that the super-reads reproduce the input genotypes "
-    "(what the solver guarantees, C01/C05) and the writer's frame condition on untouched calls (C04)",
+    "no_changes_without_distrust assumes that the super-reads reproduce the input genotypes (superreads_conform: what "
+    "the solver guarantees without --distrust-genotypes, C01/C05); the frame condition on untouched calls is proved "
+    "for the genotype-level model of PhasedVcfWriter.write and compared with the real output VCF (l2_vcf); C04 covers the writer in depth",
     "algorithm = whatshap (default); --algorithm heuristic/hapchat, --only-snvs, --tag HP, --sample not exercised",
+    "a run of the model that reaches an error value (None) corresponds to a crash of the tool; theorems about file "
+    "contents are stated for completed runs (C20_run_completes_refuted records the reachable crash)",
 ]
 
 HEADER = """From Coq Require Import ZArith List Bool Arith.
